@@ -13,6 +13,8 @@ pub struct Call {
     pub col: usize,
     pub from_expansion: bool,
     pub resolved: bool,
+    /// macros whose expansion produced the call, innermost first ("panic>assert>debug_assert")
+    pub macros: String,
 }
 
 #[derive(Debug, Clone)]
@@ -23,6 +25,7 @@ pub struct Assert {
     pub file: String,
     pub line: usize,
     pub from_expansion: bool,
+    pub macros: String,
 }
 
 #[derive(Debug, Clone)]
@@ -100,11 +103,11 @@ pub fn load(dir: &Path) -> Result<Facts, String> {
                 }
                 Some("CALL") if f.len() >= 7 => {
                     let (file, line, col) = split_loc(f[4]);
-                    cf.calls.push(Call { caller: f[1].to_string(), callee: f[2].to_string(), substs: f[3].to_string(), file, line, col, from_expansion: f[5] == "true", resolved: f[6] == "true" });
+                    cf.calls.push(Call { caller: f[1].to_string(), callee: f[2].to_string(), substs: f[3].to_string(), file, line, col, from_expansion: f[5] == "true", resolved: f[6] == "true", macros: f.get(7).map(|x| x.to_string()).unwrap_or_default() });
                 }
                 Some("ASSERT") if f.len() >= 6 => {
                     let (file, line, _) = split_loc(f[4]);
-                    cf.asserts.push(Assert { func: f[1].to_string(), kind: f[2].to_string(), detail: f[3].to_string(), file, line, from_expansion: f[5] == "true" });
+                    cf.asserts.push(Assert { func: f[1].to_string(), kind: f[2].to_string(), detail: f[3].to_string(), file, line, from_expansion: f[5] == "true", macros: f.get(6).map(|x| x.to_string()).unwrap_or_default() });
                 }
                 Some("BINOP") if f.len() >= 6 => {
                     let (file, line, _) = split_loc(f[4]);
@@ -173,6 +176,28 @@ impl CrateFacts {
             }
         }
         g
+    }
+
+    /// Functions reachable from the crate's API: public functions, every trait-impl method (it may be called through
+    /// the trait from outside) and everything they call (closures belong to their parents). A private function that
+    /// nothing reaches is dead code: it cannot run, so it carries no obligation.
+    pub fn reachable_from_api(&self) -> BTreeSet<String> {
+        let g = self.local_call_graph();
+        let mut seen: BTreeSet<String> = BTreeSet::new();
+        let mut work: Vec<String> = self.funcs.iter().filter(|f| f.vis.starts_with("Public") || f.name.starts_with('<') || f.name.contains(" as ")).map(|f| f.name.clone()).collect();
+        while let Some(u) = work.pop() {
+            if !seen.insert(u.clone()) {
+                continue;
+            }
+            if let Some(vs) = g.get(&u) {
+                for v in vs {
+                    if !seen.contains(v) {
+                        work.push(v.clone());
+                    }
+                }
+            }
+        }
+        seen
     }
 
     /// Strongly connected components with more than one node or a self loop.
